@@ -401,9 +401,10 @@ func Run[C any](t *testing.T, tg Target[C]) {
 		return
 	}
 
-	// regression tier: saved minimal cases, run first, in every shard 0
-	if shard == 0 {
-		for _, f := range regressionFiles() {
+	// regression tier: saved minimal cases, run first; the files are dealt out over
+	// the shards (each file is run by exactly one shard)
+	for idx, f := range regressionFiles() {
+		if Mine(idx) {
 			runFile(t, &tg, f, "regression")
 		}
 	}
